@@ -662,8 +662,11 @@ uint32_t u32_at(const std::string& b, size_t off)
 
 struct region_t
 {
-    size_t offset, length;
-    bool   hash_confirmed;
+    size_t   offset, length;
+    bool     hash_confirmed;
+    size_t   sz{1};             // sizeof(scalar) of the tensor
+    bool     sign_extend{false}; // which variant of the reference hash reproduced the stored hash
+    uint64_t stored{0};          // the stored content hash
 };
 
 struct layout_t
@@ -710,9 +713,10 @@ layout_t parse_layout(const object_t& obj)
             }
             uint64_t stored = 0;
             memcpy(&stored, b.data() + calls[j - 1].offset, 8);
-            const bool confirmed = stored == ref_hash(b, calls[j].offset, calls[j].length, sz, false) ||
-                                   stored == ref_hash(b, calls[j].offset, calls[j].length, sz, true);
-            lay.payloads.push_back(region_t{calls[j].offset, calls[j].length, confirmed});
+            const bool plain_ok  = stored == ref_hash(b, calls[j].offset, calls[j].length, sz, false);
+            const bool signed_ok = stored == ref_hash(b, calls[j].offset, calls[j].length, sz, true);
+            const bool confirmed = plain_ok || signed_ok;
+            lay.payloads.push_back(region_t{calls[j].offset, calls[j].length, confirmed, sz, !plain_ok && signed_ok, stored});
             lay.headers.emplace_back(calls[ir - 1].offset, 4); // version
             lay.headers.emplace_back(calls[ir].offset, 4);     // rank
             lay.headers.emplace_back(calls[j - 2].offset, 4);  // sizeof(scalar)
@@ -919,9 +923,21 @@ void body(ctx_t& c)
                 c.fire("payload_byte_flip");
                 if (a.result == outcome::success)
                 {
-                    c.fail("corruption-accepted", obj.kind + ": tensor payload byte at offset " + std::to_string(region.offset + off) + " xor " +
-                                                      std::to_string(mask) + " was read successfully" +
-                                                      (a.repr == obj.repr ? " (as the ORIGINAL object)" : " (as a DIFFERENT object)"));
+                    // is it the content hash ITSELF that does not see the change (the shipped hash function, re-implemented
+                    // above, gives the stored value for the altered payload as well), or was the change not checked?
+                    bool collision = false;
+                    if (region.hash_confirmed)
+                    {
+                        auto altered = obj.bytes;
+                        altered[region.offset + off] = static_cast<char>(static_cast<uint8_t>(altered[region.offset + off]) ^ mask);
+                        collision = ref_hash(altered, region.offset, region.length, region.sz, region.sign_extend) == region.stored;
+                    }
+                    c.fail(collision ? "corruption-accepted-hash-collision" : "corruption-accepted",
+                           obj.kind + ": tensor payload byte at offset " + std::to_string(region.offset + off) + " xor " + std::to_string(mask) +
+                               " was read successfully" + (a.repr == obj.repr ? " (as the ORIGINAL object)" : " (as a DIFFERENT object)") +
+                               (collision ? " - the content hash of the altered payload EQUALS the stored one (element size " + std::to_string(region.sz) + ", " +
+                                                std::to_string(region.length / region.sz) + " elements, element " + std::to_string(off / region.sz) + ")"
+                                          : std::string()));
                     break;
                 }
             }
